@@ -95,7 +95,7 @@ impl ToTokens for MatchArms<'_> {
             {
                 ForwardAttrsFilter::All => quote!(_ => #push_command),
                 ForwardAttrsFilter::Only(idents) => {
-                    let names = idents.to_strings();
+                    let names = idents.iter().map(super::attr_extractor::attr_name);
                     quote! {
                         #(#names)|* => #push_command,
                         _ => continue,
